@@ -5,8 +5,8 @@
 // dispatcher unit cross-checks that restatement against runner.DispatchOnRequest).
 //
 // Oracle: an independent segment-wise matcher + specificity order (spec*), evaluated
-// under every reading the statement leaves open. Three defect models (alias / greedy /
-// norm) reproduce the known deviations of the implementation exactly; a deviation is
+// under every reading the statement leaves open. Two defect models (alias / greedy)
+// reproduce the known deviations of the implementation exactly; a deviation is
 // attributed to a listed finding only if the implementation agrees with that model.
 package c13
 
@@ -37,7 +37,6 @@ func init() { zerolog.SetGlobalLevel(zerolog.Disabled) }
 const (
 	findingAlias  = "C13-F1" // policy map found by Lookup(new pattern) is reused and mutated
 	findingGreedy = "C13-F2" // greedy descent, no back-tracking
-	findingNorm   = "C13-F3" // normalised URL / params describe the descent path, not the winning wildcard pattern
 )
 
 // ---- declarations ------------------------------------------------------------
@@ -226,12 +225,58 @@ type outcome struct {
 	Policy  string            `json:"policy_url,omitempty"` // informational
 }
 
-func sameOutcome(a, b outcome) bool {
+// agrees: does the observed outcome agree with the expected one? Applied plugins and
+// the normalised URL must be equal and every parameter of the expected (winning)
+// pattern must be reported with the expected value. Further reported parameters are
+// accepted when they are the request's segment at a position where a declared pattern
+// carries a parameter of that name (the lookup keeps the parameters of a branch it
+// abandoned for an ancestor wildcard; the statement does not forbid that).
+func agrees(obs, want outcome, ds []decl, q request) bool {
+	if !reflect.DeepEqual(obs.Applied, want.Applied) {
+		return false
+	}
+	if len(obs.Applied) == 0 {
+		return true // nothing is reported when nothing is applied
+	}
+	if obs.Norm != want.Norm {
+		return false
+	}
+	for k, v := range want.Params {
+		if w, ok := obs.Params[k]; !ok || w != v {
+			return false
+		}
+	}
+	u := splitParts(q.URL)
+	for k, v := range obs.Params {
+		if _, ok := want.Params[k]; ok {
+			continue
+		}
+		legit := false
+		for _, d := range ds {
+			for i, pp := range parsePat(d.URL).fixed {
+				if name, isP := paramName(pp.v); isP && name == k && i < len(u) && u[i].v == v {
+					legit = true
+				}
+			}
+		}
+		if !legit {
+			return false
+		}
+	}
+	return true
+}
+
+func extraParams(obs, want outcome) bool {
+	return len(obs.Applied) > 0 && len(obs.Params) > len(want.Params)
+}
+
+// identical is used between two observations (order independence)
+func identical(a, b outcome) bool {
 	if !reflect.DeepEqual(a.Applied, b.Applied) {
 		return false
 	}
 	if len(a.Applied) == 0 {
-		return true // nothing is reported when nothing is applied
+		return true
 	}
 	if a.Norm != b.Norm || len(a.Params) != len(b.Params) {
 		return false
@@ -328,7 +373,7 @@ func matchingPatterns(ds []decl, q request) []string {
 
 // ---- model of the implementation with its three deviations as switches ------------
 
-type defects struct{ alias, greedy, norm bool }
+type defects struct{ alias, greedy bool }
 
 func (d defects) ids() []string {
 	out := []string{}
@@ -338,19 +383,11 @@ func (d defects) ids() []string {
 	if d.greedy {
 		out = append(out, findingGreedy)
 	}
-	if d.norm {
-		out = append(out, findingNorm)
-	}
 	return out
 }
 
 // ordered by size, so that the smallest explanation is found first
-var defectSubsets = []defects{
-	{false, false, false},
-	{true, false, false}, {false, true, false}, {false, false, true},
-	{true, true, false}, {true, false, true}, {false, true, true},
-	{true, true, true},
-}
+var defectSubsets = []defects{{false, false}, {true, false}, {false, true}, {true, true}}
 
 type mval struct{ byMethod map[string]int } // method -> index of the declaration
 
@@ -378,16 +415,24 @@ func cloneParams(m map[string]string) map[string]string {
 	return o
 }
 
+func wildPath(parent string, w *mnode) string {
+	return parent + delim(part{host: w.host}) + "*"
+}
+
 // lookupGreedy follows urltree.lookupNode step by step.
 func (root *mnode) lookupGreedy(url string) (mfound, bool) {
 	cur := root
 	var found *mnode
+	foundPath := ""
 	path := ""
 	params := map[string]string{}
 	trim := func(s string) string { return strings.Trim(s, "./") }
 	for _, p := range splitParts(url) {
 		if cur.wild != nil {
-			found = cur.wild
+			found, foundPath = cur.wild, wildPath(path, cur.wild)
+			if p.v == "*" {
+				return mfound{found, trim(foundPath), params}, true
+			}
 		}
 		if c, ok := cur.consts[p.v]; ok && c.host == p.host {
 			cur = c
@@ -406,7 +451,7 @@ func (root *mnode) lookupGreedy(url string) (mfound, bool) {
 			return mfound{}, false
 		}
 		if found != nil {
-			return mfound{found, trim(path + delim(p) + "*"), params}, true
+			return mfound{found, trim(foundPath), params}, true
 		}
 		return mfound{}, false
 	}
@@ -414,18 +459,15 @@ func (root *mnode) lookupGreedy(url string) (mfound, bool) {
 		return mfound{cur, trim(path), params}, true
 	}
 	if cur.wild != nil {
-		return mfound{cur.wild, trim(path), params}, true
+		return mfound{cur.wild, trim(wildPath(path, cur.wild)), params}, true
 	}
 	if found != nil {
-		return mfound{found, trim(path), params}, true
+		return mfound{found, trim(foundPath), params}, true
 	}
 	return mfound{}, false
 }
 
 // lookupBT: the same precedence (literal, parameter, wildcard) with back-tracking.
-// The reported path keeps the implementation's convention (the wildcard is appended
-// only when it consumes at least one part), so that the "norm" deviation can be
-// switched independently of the "greedy" one.
 func (n *mnode) lookupBT(parts []part, i int, path string, params map[string]string) (mfound, bool) {
 	trim := func(s string) string { return strings.Trim(s, "./") }
 	if i == len(parts) {
@@ -433,11 +475,14 @@ func (n *mnode) lookupBT(parts []part, i int, path string, params map[string]str
 			return mfound{n, trim(path), params}, true
 		}
 		if n.wild != nil {
-			return mfound{n.wild, trim(path), params}, true
+			return mfound{n.wild, trim(wildPath(path, n.wild)), params}, true
 		}
 		return mfound{}, false
 	}
 	p := parts[i]
+	if n.wild != nil && p.v == "*" {
+		return mfound{n.wild, trim(wildPath(path, n.wild)), params}, true
+	}
 	if c, ok := n.consts[p.v]; ok && c.host == p.host {
 		if f, ok := c.lookupBT(parts, i+1, path+delim(p)+p.v, params); ok {
 			return f, true
@@ -458,7 +503,7 @@ func (n *mnode) lookupBT(parts []part, i int, path string, params map[string]str
 		return mfound{}, false
 	}
 	if n.wild != nil {
-		return mfound{n.wild, trim(path + delim(p) + "*"), params}, true
+		return mfound{n.wild, trim(wildPath(path, n.wild)), params}, true
 	}
 	return mfound{}, false
 }
@@ -549,14 +594,7 @@ func (m *model) outcome(ds []decl, q request, df defects) outcome {
 	if len(applied) == 0 {
 		return outcome{Applied: applied}
 	}
-	o := outcome{Applied: applied, Policy: ds[i].URL}
-	if df.norm {
-		o.Norm, o.Params = f.path, f.params
-	} else {
-		o.Norm = f.node.pattern
-		_, o.Params = parsePat(f.node.pattern).match(splitParts(q.URL), 0)
-	}
-	return o
+	return outcome{Applied: applied, Policy: ds[i].URL, Norm: f.path, Params: f.params}
 }
 
 // ---- the real thing ----------------------------------------------------------------
@@ -670,10 +708,11 @@ func describe(ds []decl, q request, obs, want outcome) string {
 }
 
 type verdict struct {
-	attributed map[string]int // finding id -> (order,request) pairs attributed
-	orderDep   int            // requests whose outcome differs between orders
-	altReading string
-	rejected   bool
+	attributed  map[string]int // finding id -> (order,request) pairs attributed
+	orderDep    int            // requests whose outcome differs between orders
+	extraParams int            // lookups reporting parameters of an abandoned branch besides the expected ones
+	altReading  string
+	rejected    bool
 }
 
 // checkSet drives every order × request. It returns a failing case (or nil).
@@ -711,7 +750,7 @@ func checkSet(r *ev.Recorder, ds []decl, orders [][]int, reqs []request) (*verdi
 	}
 	for qi := range reqs {
 		for _, o := range all[1:] {
-			if !sameOutcome(o.out[qi], all[0].out[qi]) {
+			if !identical(o.out[qi], all[0].out[qi]) {
 				v.orderDep++
 				break
 			}
@@ -724,7 +763,10 @@ func checkSet(r *ev.Recorder, ds []decl, orders [][]int, reqs []request) (*verdi
 		for qi, q := range reqs {
 			want := specOutcome(ds, q, reading0)
 			obs := o.out[qi]
-			if sameOutcome(obs, want) {
+			if agrees(obs, want, ds, q) {
+				if extraParams(obs, want) {
+					v.extraParams++
+				}
 				continue
 			}
 			if models == nil {
@@ -738,7 +780,7 @@ func checkSet(r *ev.Recorder, ds []decl, orders [][]int, reqs []request) (*verdi
 						models[[2]bool{a, g}] = m
 					}
 				}
-				if got := models[[2]bool{false, false}].outcome(o.ds, q, defects{}); !sameOutcome(got, want) {
+				if got := models[[2]bool{false, false}].outcome(o.ds, q, defects{}); !identical(got, want) {
 					return v, nil, infraError{fmt.Sprintf("defect-free model %+v disagrees with the specification %+v on %v / %v", got, want, o.ds, q)}
 				}
 			}
@@ -749,7 +791,7 @@ func checkSet(r *ev.Recorder, ds []decl, orders [][]int, reqs []request) (*verdi
 				if df.alias && !m.aliased {
 					continue // structural predicate of the alias finding
 				}
-				if !sameOutcome(m.outcome(o.ds, q, df), obs) {
+				if !agrees(obs, m.outcome(o.ds, q, df), ds, q) {
 					continue
 				}
 				if firstExpl == nil {
@@ -788,7 +830,7 @@ func checkSet(r *ev.Recorder, ds []decl, orders [][]int, reqs []request) (*verdi
 		ok := true
 		for _, o := range all {
 			for qi, q := range reqs {
-				if !sameOutcome(o.out[qi], specOutcome(ds, q, rd)) {
+				if !agrees(o.out[qi], specOutcome(ds, q, rd), ds, q) {
 					ok = false
 				}
 			}
@@ -840,6 +882,9 @@ func record(r *ev.Recorder, ds []decl, reqs []request, v *verdict) {
 	}
 	if v.orderDep > 0 {
 		r.ClassN("requests with order-dependent outcome", int64(v.orderDep))
+	}
+	if v.extraParams > 0 {
+		r.ClassN("lookups reporting extra parameters of an abandoned branch (accepted)", int64(v.extraParams))
 	}
 	if v.altReading != "" {
 		r.Class("explained by reading " + v.altReading)
@@ -1144,11 +1189,4 @@ func TestWitnessGreedyDescent(t *testing.T) {
 	witness(t, findingGreedy, ds, request{"GET", "h.com/a/c"},
 		func(o outcome) bool { return !reflect.DeepEqual(o.Applied, []string{"R1"}) },
 		"GET h.com/a/c matches the declared pattern h.com/{p1}/c but gets no policy: the lookup commits to the literal child 'a' and never back-tracks")
-}
-
-func TestWitnessNormalizedURLOfWildcard(t *testing.T) {
-	ds := []decl{{Method: "GET", URL: "h.com/{p1}/b", Remedy: "R0", Kind: 0}, {Method: "GET", URL: "h.com/*", Remedy: "R1", Kind: 1}}
-	witness(t, findingNorm, ds, request{"GET", "h.com/1/c"},
-		func(o outcome) bool { return reflect.DeepEqual(o.Applied, []string{"R1"}) && (o.Norm != "h.com/*" || len(o.Params) != 0) },
-		"GET h.com/1/c is served by h.com/* but the reported normalised URL is h.com/{p1}/* (not a declared pattern) with path parameter p1=1")
 }
